@@ -131,7 +131,7 @@ pub open spec fn spec_ps_start<T: Table>(d: Seq<u8>) -> int {
 //@   rule R5
 //@   rule R5str domain response
 //@ extract psl impl ListProvider
-//@   rule R5
+//@   rule R5 domain
 //@   rule R5str domain s response T::TEXT
 //@   rule R5lt s label
 //@ extract psl fn after_or_all
